@@ -13,6 +13,7 @@ import (
 	"fmt"
 	"math/rand"
 	"os"
+	"os/exec"
 	"sort"
 	"strconv"
 	"strings"
@@ -123,7 +124,9 @@ func (x *run) observe() {
 	sort.Slice(live, func(i, j int) bool { return live[i].ID < live[j].ID })
 	for _, cl := range live {
 		st := "P"
-		if cl.Waiting {
+		if cl.Waiting && cl.Done {
+			st = "Z"
+		} else if cl.Waiting {
 			st = "W"
 		} else if cl.Delivered {
 			st = "A"
@@ -205,23 +208,39 @@ func (x *run) do(label string) bool {
 	case "REPLY", "FAIL":
 		id, _ := strconv.Atoi(f[1])
 		x.c.Reply(x.c.Call(id), f[0] == "FAIL")
-	case "SUBMIT":
-		ty, _ := strconv.Atoi(f[2])
-		p, _ := strconv.ParseUint(f[3], 10, 64)
+	case "SUBMIT", "ADD", "REMOVE":
+		// API calls run in their own goroutine: a node frozen at a storage write never returns
 		n := node(1)
-		fut := n.R.SubmitOperation(sim.PayloadBytes(p), raft.OperationType(ty), time.Hour)
-		x.futures = append(x.futures, &pendingFuture{fid: x.nextFid, node: n.ID, inc: n.Incarnation, op: fut})
+		pf := &pendingFuture{fid: x.nextFid, node: n.ID, inc: n.Incarnation}
 		x.nextFid++
-	case "ADD":
-		n := node(1)
-		fut := n.R.AddServer(f[2], "addr-"+f[2], f[3] == "1", time.Hour)
-		x.futures = append(x.futures, &pendingFuture{fid: x.nextFid, node: n.ID, inc: n.Incarnation, conf: fut})
-		x.nextFid++
-	case "REMOVE":
-		n := node(1)
-		fut := n.R.RemoveServer(f[2], time.Hour)
-		x.futures = append(x.futures, &pendingFuture{fid: x.nextFid, node: n.ID, inc: n.Incarnation, conf: fut})
-		x.nextFid++
+		done := make(chan struct{})
+		go func() {
+			switch f[0] {
+			case "SUBMIT":
+				ty, _ := strconv.Atoi(f[2])
+				p, _ := strconv.ParseUint(f[3], 10, 64)
+				pf.op = sim.SubmitVia(n, sim.PayloadBytes(p), raft.OperationType(ty))
+			case "ADD":
+				pf.conf = sim.AddVia(n, f[2], f[3] == "1")
+			case "REMOVE":
+				pf.conf = sim.RemoveVia(n, f[2])
+			}
+			close(done)
+		}()
+		if !x.quiesce(label) {
+			return false
+		}
+		if n.Store.Frozen {
+			// frozen inside the call (or before it): the future never exists
+			select {
+			case <-done:
+				x.futures = append(x.futures, pf)
+			default:
+			}
+		} else {
+			<-done
+			x.futures = append(x.futures, pf)
+		}
 	case "BUDGET":
 		k, _ := strconv.Atoi(f[2])
 		node(1).Store.SetBudget(k)
@@ -280,12 +299,20 @@ var families = map[string]weights{
 	"delay":    {deliver: 12, reply: 8, fail: 2, dup: 3, tick: 8, election: 10, heartbeat: 6, submit: 8, read: 3},
 	"crash":    {deliver: 30, reply: 30, fail: 4, dup: 2, tick: 5, election: 5, heartbeat: 5, submit: 8, read: 2, crash: 3, restart: 5, crashin: 3},
 	"snapshot": {deliver: 35, reply: 35, fail: 4, dup: 2, tick: 4, election: 4, heartbeat: 6, submit: 10, read: 2, snapshot: 5, crash: 2, restart: 4, crashin: 1},
+	"timed":    {deliver: 30, reply: 40, fail: 6, dup: 2, tick: 6, election: 8, heartbeat: 8, submit: 8, read: 8, crash: 1, restart: 3},
 	"member":   {deliver: 35, reply: 35, fail: 3, dup: 1, tick: 4, election: 4, heartbeat: 6, submit: 6, read: 2, member: 4, crash: 1, restart: 3},
 }
 
 func (x *run) nextLabel(w weights) string {
 	live := x.c.LiveCalls()
 	var pend, ans []*sim.Call
+	var live2 []*sim.Call
+	for _, cl := range live {
+		if !cl.Done {
+			live2 = append(live2, cl)
+		}
+	}
+	live = live2
 	for _, cl := range live {
 		if cl.Waiting {
 			continue
@@ -323,7 +350,19 @@ func (x *run) nextLabel(w weights) string {
 		add(w.fail, func() string { return fmt.Sprintf("FAIL %d", live[x.r.Intn(len(live))].ID) })
 		add(w.dup, func() string { return fmt.Sprintf("DUP %d", live[x.r.Intn(len(live))].ID) })
 	}
-	add(w.tick, func() string { return fmt.Sprintf("TICK %d", 1+x.r.Intn(x.c.ET+1)) })
+	tickOK := true
+	if x.family == "timed" {
+		// the timing assumption of lease reads: no time passes between an AppendEntries being
+		// handled by a follower and its reply being processed by the leader
+		for _, cl := range ans {
+			if cl.Kind == "AE" {
+				tickOK = false
+			}
+		}
+	}
+	if tickOK {
+		add(w.tick, func() string { return fmt.Sprintf("TICK %d", 1+x.r.Intn(x.c.ET+1)) })
+	}
 	if len(up) > 0 {
 		add(w.election, func() string { return "ELECTION " + x.pick(up) })
 		add(w.heartbeat, func() string {
@@ -380,6 +419,7 @@ func (x *run) drain(rounds int) bool {
 			if cl.Done || cl.Waiting {
 				continue
 			}
+			cl := cl
 			if !cl.Delivered {
 				if !x.do(fmt.Sprintf("DELIVER %d", cl.ID)) {
 					return false
@@ -400,9 +440,21 @@ func main() {
 	traces := flag.Int("traces", 10, "number of traces")
 	steps := flag.Int("steps", 150, "labels per trace")
 	out := flag.String("out", "cosim.trace", "trace file")
-	fam := flag.String("families", "normal,lossy,delay,crash,snapshot", "scenario families")
+	fam := flag.String("families", "normal,lossy,delay,crash,snapshot,timed", "scenario families")
 	replay := flag.String("replay", "", "replay the labels of this trace file instead of generating")
+	one := flag.Int("one", -1, "child mode: generate only trace number N")
+	workers := flag.Int("workers", 8, "parallel child processes")
+	maxTime := flag.Duration("maxtime", 20*time.Minute, "watchdog: exit 3 after this long")
 	flag.Parse()
+	go func() {
+		time.Sleep(*maxTime)
+		fmt.Println("HARNESS-ERROR watchdog: cosim ran longer than", *maxTime)
+		os.Exit(3)
+	}()
+	if *one < 0 && *replay == "" {
+		parent(*seed, *traces, *steps, *out, *fam, *workers, *maxTime)
+		return
+	}
 	f, err := os.Create(*out)
 	if err != nil {
 		panic(err)
@@ -424,6 +476,9 @@ func main() {
 		return
 	}
 	for t := 0; t < *traces; t++ {
+		if *one >= 0 && t != *one {
+			continue
+		}
 		r := rand.New(rand.NewSource(*seed*1000003 + int64(t)))
 		family := fams[t%len(fams)]
 		nn := 3
@@ -480,6 +535,93 @@ func main() {
 	}
 	sort.Strings(fh)
 	fmt.Printf("COSIM traces=%d steps=%d families=%s labels=%s\n", *traces, total, strings.Join(fh, ","), strings.Join(hs, ","))
+}
+
+// parent runs every trace in its own child process (a Fatal/panic of the library kills only that
+// child and is reported as a violation; goroutines of finished traces do not pile up).
+func parent(seed int64, traces, steps int, out, fam string, workers int, maxTime time.Duration) {
+	type res struct {
+		t    int
+		body []byte
+		line string
+	}
+	self, _ := os.Executable()
+	dir, err := os.MkdirTemp(os.Getenv("VERIF_SCRATCH"), "cosimparts")
+	if err != nil {
+		panic(err)
+	}
+	defer os.RemoveAll(dir)
+	jobs := make(chan int)
+	results := make(chan res)
+	for i := 0; i < workers; i++ {
+		go func() {
+			for t := range jobs {
+				part := fmt.Sprintf("%s/%d.trace", dir, t)
+				cmd := exec.Command(self, "-seed", fmt.Sprint(seed), "-traces", fmt.Sprint(traces), "-steps", fmt.Sprint(steps),
+					"-families", fam, "-one", fmt.Sprint(t), "-out", part, "-maxtime", maxTime.String())
+				ob, err := cmd.CombinedOutput()
+				body, _ := os.ReadFile(part)
+				os.Remove(part)
+				if err != nil {
+					tail := string(ob)
+					if len(tail) > 1500 {
+						tail = tail[len(tail)-1500:]
+					}
+					tail = strings.ReplaceAll(tail, "\n", " | ")
+					msg := fmt.Sprintf("the process running trace %d (seed %d) died: %v: %s", t, seed, err, tail)
+					body = append(body, []byte("IMPL-VIOLATION C18 "+msg+"\nIMPL-VIOLATION C14 "+msg+"\nEND\n")...)
+				}
+				line := ""
+				for _, l := range strings.Split(string(ob), "\n") {
+					if strings.HasPrefix(l, "COSIM") {
+						line = l
+					}
+				}
+				results <- res{t, body, line}
+			}
+		}()
+	}
+	go func() {
+		for t := 0; t < traces; t++ {
+			jobs <- t
+		}
+		close(jobs)
+	}()
+	parts := make([][]byte, traces)
+	hist := map[string]int{}
+	totalSteps := 0
+	for i := 0; i < traces; i++ {
+		r := <-results
+		parts[r.t] = r.body
+		for _, kvs := range strings.Fields(r.line) {
+			if strings.HasPrefix(kvs, "steps=") {
+				v, _ := strconv.Atoi(strings.TrimPrefix(kvs, "steps="))
+				totalSteps += v
+			}
+			if strings.HasPrefix(kvs, "labels=") || strings.HasPrefix(kvs, "families=") {
+				for _, kv := range strings.Split(kvs[strings.IndexByte(kvs, '=')+1:], ",") {
+					if j := strings.IndexByte(kv, '='); j > 0 {
+						v, _ := strconv.Atoi(kv[j+1:])
+						hist[kvs[:strings.IndexByte(kvs, '=')]+":"+kv[:j]] += v
+					}
+				}
+			}
+		}
+	}
+	f, err := os.Create(out)
+	if err != nil {
+		panic(err)
+	}
+	for _, p := range parts {
+		f.Write(p)
+	}
+	f.Close()
+	var hs []string
+	for k, v := range hist {
+		hs = append(hs, fmt.Sprintf("%s=%d", k, v))
+	}
+	sort.Strings(hs)
+	fmt.Printf("COSIM traces=%d steps=%d %s\n", traces, totalSteps, strings.Join(hs, ","))
 }
 
 func newRun(w *bufio.Writer, r *rand.Rand, root string, ids []string, spare int, family string, hist map[string]int) *run {
@@ -552,24 +694,88 @@ func (x *run) tail() {
 			}
 		}
 	}
-	for round := 0; round < 6; round++ {
-		if !x.drain(4) {
-			return
-		}
-		l := x.leaders()
-		if len(l) == 0 {
-			if !x.do(fmt.Sprintf("TICK %d", x.c.ET)) || !x.do("ELECTION "+x.pick(x.upNodes())) {
+	for attempt := 0; attempt < 5; attempt++ {
+		// fair round-robin: every running voter gets its election timer in turn until somebody leads
+		for round := 0; round < 12; round++ {
+			if !x.drain(8) {
 				return
 			}
-			continue
+			if len(x.leaders()) == 1 {
+				break
+			}
+			up := x.upNodes()
+			if len(up) == 0 {
+				return
+			}
+			if !x.do(fmt.Sprintf("TICK %d", x.c.ET)) || !x.do("ELECTION "+up[(round+attempt)%len(up)]) {
+				return
+			}
 		}
-		x.payload++
-		if !x.do(fmt.Sprintf("SUBMIT %s 0 %d", l[0], x.payload)) || !x.drain(4) || !x.do("HEARTBEAT "+l[0]) {
-			return
+		stable := true
+		for round := 0; round < 3 && stable; round++ {
+			l := x.leaders()
+			if len(l) != 1 {
+				stable = false
+				break
+			}
+			x.payload++
+			if !x.do(fmt.Sprintf("SUBMIT %s 0 %d", l[0], x.payload)) || !x.drain(8) || !x.do("HEARTBEAT "+l[0]) || !x.drain(8) {
+				return
+			}
+		}
+		if stable && len(x.leaders()) == 1 {
+			break
 		}
 	}
 	x.drain(6)
 	x.emit("TAIL")
+}
+
+// resolve turns a symbolic call reference "@KIND:src>dst" (oldest live call of that kind and
+// direction in the state the label needs; KIND = AE, RV, PV (prevote), IS or *) into its id.
+func (x *run) resolve(f []string) (string, bool) {
+	if len(f) < 2 || !strings.HasPrefix(f[1], "@") {
+		return strings.Join(f, " "), true
+	}
+	ref := f[1][1:]
+	newest := strings.HasSuffix(ref, "!")
+	ref = strings.TrimSuffix(ref, "!")
+	found := ""
+	kind, dir := "*", ref
+	if i := strings.IndexByte(ref, ':'); i >= 0 {
+		kind, dir = ref[:i], ref[i+1:]
+	}
+	sd := strings.Split(dir, ">")
+	if len(sd) != 2 {
+		return "", false
+	}
+	for _, cl := range x.c.LiveCalls() {
+		if cl.Src != sd[0] || cl.Dst != sd[1] {
+			continue
+		}
+		k := cl.Kind
+		if k == "RV" && cl.RV.Prevote {
+			k = "PV"
+		}
+		if kind != "*" && kind != k {
+			continue
+		}
+		switch f[0] {
+		case "DELIVER":
+			if cl.Delivered || cl.Waiting {
+				continue
+			}
+		case "REPLY":
+			if !cl.Delivered {
+				continue
+			}
+		}
+		found = fmt.Sprintf("%s %d", f[0], cl.ID)
+		if !newest {
+			return found, true
+		}
+	}
+	return found, found != ""
 }
 
 func replayFile(path string, w *bufio.Writer, root string) {
@@ -599,14 +805,21 @@ func replayFile(path string, w *bufio.Writer, root string) {
 			x = newRun(w, rand.New(rand.NewSource(1)), fmt.Sprintf("%s/r%d", root, t), boot, len(all)-len(boot), kv["family"], hist)
 		case "STEP":
 			if x != nil && f[2] != "INIT" {
-				if !x.do(strings.Join(f[2:], " ")) {
+				l, ok := x.resolve(f[2:])
+				if !ok && f[2] == "FAIL" {
+					continue // nothing left to fail
+				}
+				if !ok {
+					x.emit("HARNESS-ERROR script refers to a call that does not exist: %s", strings.Join(f[2:], " "))
+					x = nil
+				} else if !x.do(l) {
 					x = nil
 				}
 			}
 		case "END":
 			if x != nil {
 				x.emit("END")
-			}
+					}
 			x = nil
 		}
 	}
